@@ -1049,6 +1049,14 @@ func (fr *Frame) countCall(st *State, c *ssa.CallCommon) {
 		if t == callee {
 			k := v.ghostKey("ncalls!"+callee, "Int")
 			v.setHeap(st, k, "(+ 1 "+v.heap(st, k)+")")
+			// the pointer-like arguments of the latest call (lastarg(F, i) in specs)
+			for i, a := range c.Args {
+				if _, ok := sortIsInt(a.Type()); ok {
+					if val := fr.val(a); val.Loc == nil && val.T != "" {
+						v.setHeap(st, v.ghostKey(fmt.Sprintf("lastarg!%s!%d", callee, i), "Int"), val.T)
+					}
+				}
+			}
 		}
 	}
 }
